@@ -5,6 +5,7 @@ package polyjson
 // C15: JSON is a lossless interchange form for annotated sequences.
 //
 // verif:bound C15 structured sequences: every string field of Meta / Locus / Reference / Feature one symbolic printable byte (metadata) or 1..2 bytes, the sequence 5 symbolic letters, Locus flags and region bounds symbolic, feature coordinates from six spans (whole, interior, zero-width inside / at either end, last base); 0..1 (quick) / 0..2 (thorough) references, Other map absent / empty / one entry, 0..1 features with a location tree of depth <= 1 (quick) / 2 for the first feature (thorough) with symbolic partial flags, attribute map absent / empty / one entry
+// verif:bound C15 degenerate records: sequence of 0 or 1 symbolic letters carrying 1..2 features over the spans (0,L) (0,0) (L,L), alone or as a join of two, complement symbolic
 // verif:bound C15 format round trip: one GenBank record (3 feature tables) and one GFF record with symbolic name, words, qualifier / attribute values and sequence: Build(Parse(text)) equals Build(polyjson.Parse(JSON(Parse(text)))) byte for byte
 // verif:assume C15 encoding/json is replaced by a contract model that walks the REAL struct types and tags of /repo's current source (exported fields, json:"name", json:"-", omitempty, duplicate names dropped, case-insensitive decode, nil <-> null); the JSON text layer (syntax, escaping, non-ASCII) is not modelled
 // verif:bound C15 outside the claim: JSON text syntax and escaping, non-ASCII text, temp files (Read/Write), long records
@@ -158,6 +159,56 @@ func Harness_C15_RoundTrip() {
 	vCover("C15 nested location", nf > 0 && len(seq.Features[0].SequenceLocation.SubLocations) > 0)
 	vCover("C15 absent collections", nf == 0 && nr == 0 && m.Other == nil)
 	vCover("C15 a feature with attributes", nf > 0 && len(seq.Features[0].Attributes) > 0)
+}
+
+// degenerate records: an empty or one-letter sequence that still carries features
+func Harness_C15_DegenerateSequence() {
+	L := vChoice(2)
+	var seq poly.Sequence
+	seq.Sequence = vBytes(L, "acgtn")
+	seq.Meta.Name = c15Str()
+	nf := 1 + vChoice(2)
+	var before []string
+	for i := 0; i < nf; i++ {
+		var f poly.Feature
+		f.Type = c15Str()
+		leaf := func() poly.Location {
+			se := [][2]int{{0, L}, {0, 0}, {L, L}}[vChoice(3)]
+			return poly.Location{Start: se[0], End: se[1], Complement: vBool()}
+		}
+		if vChoice(2) == 1 {
+			f.SequenceLocation = poly.Location{Join: true, SubLocations: []poly.Location{leaf(), leaf()}}
+		} else {
+			f.SequenceLocation = leaf()
+		}
+		seq.AddFeature(&f)
+	}
+	for i := 0; i < nf; i++ {
+		before = append(before, seq.Features[i].GetSequence())
+	}
+	text, err := json.MarshalIndent(seq, "", " ")
+	vAssert(err == nil, "serialises")
+	var back poly.Sequence
+	panicked := vPanics(func() { back = Parse(text) })
+	vAssert(!panicked, "reads-back-without-panic")
+	if panicked {
+		return
+	}
+	vAssert(vEqStr(back.Sequence, seq.Sequence), "sequence-fields-equal")
+	vAssert(len(back.Features) == nf, "feature-count-equal")
+	for i := 0; i < nf && i < len(back.Features); i++ {
+		b := back.Features[i]
+		vAssert(c15EqLoc(seq.Features[i].SequenceLocation, b.SequenceLocation), "feature-location-equal")
+		vAssert(b.ParentSequence != nil, "feature-relinked-to-parent")
+		if b.ParentSequence != nil {
+			var after string
+			p2 := vPanics(func() { after = b.GetSequence() })
+			vAssert(!p2, "relinked-feature-sequence-does-not-panic")
+			if !p2 {
+				vAssert(vEqStr(after, before[i]), "feature-reports-same-sequence-as-before")
+			}
+		}
+	}
 }
 
 // Converting parser output to JSON and back gives the same GenBank / GFF text as
